@@ -12,6 +12,14 @@ NA = [
 
 # property -> (technique, level text, level note, design ref)
 CLAIMED = {
+ "C01": ("who-may-call, field-effect-set and CFG ordering rules over every ArchetypeResource implementation (types.Implements) and the critical-section driver",
+         "Decides the structural transaction protocol behind atomicity for all 36 resource implementations and for Run/commit/abort/Read/Write on all paths: lifecycle methods are called only by the driver or a same-named forwarding method (RES-OWNER); every field a section operation may write is written by Abort, snapshot fields are maintained (RES-RESTORE); wrappers/maps forward to and dirty-track their children (RES-FORWARD); value-carrying channel sends and file/database writes are reachable only from Commit (RES-PUBLISH); no Commit before the pre-commit error test, errors accumulate, dirty sets are cleared, Run aborts on the aborted arm and feeds commit errors back (CS-ORDER); handles are marked dirty before the resource is touched (CS-DIRTY); sentinels are never wrapped (ERR-SENTINEL); live cells are never re-bound (RES-NOREBIND). It decides that the protocol is followed, not that each Abort restores the right value.",
+         "trusts go/types, go/cfg and the reasoned exception tables (restoreExceptions, publishExceptions, RES-OWNER exceptions) in checker/rules/resources.go",
+         "DESIGN.md section 4, C01"),
+ "C04": ("CFG dominance/ordering rules on ArchetypeInterface.Call/Return/TailCall + call-graph reachability of the ctx.resources store",
+         "Decides that section-time code can reach the store ctx.resources[h]=.. only under an absence test (RES-NOREBIND; otherwise recursion saves zero values), that the .stack cell is written only with sequence constructors and its value is never used as a function (KIND-STACK), and that Call saves before binding, records the return label, pushes at the head after the loop, then runs the preamble and jumps; Return pops with Tail and writes every pair of Head back; TailCall takes the label before Return() (CALL-ORDER). Value-correctness over all call graphs is not decided.",
+         "trusts go/types and go/cfg; two defects found by these rules were repaired in /repo (fix: commits 59f41d35, 73701ef6)",
+         "DESIGN.md section 4, C04"),
  "C03": ("AST/CFG + type-resolved value-flow rules over package tla; lexical cross-check of the Scala operator tables",
          "Necessary structural conditions of 'evaluates as TLA+ defines or fails loudly, never hangs' decided for every function of package tla on all paths: iterator loops advance (ITER-ADVANCE, workspace-wide), no truncating / or % and no unchecked int32 arithmetic reaches MakeNumber (DIVMOD-FLOOR, ARITH-CHECKED), explicit panics wrap ErrTLAType (PANIC-TYPED), sequence accesses are bounds-checked (SEQ-BOUNDS), all operands are used (PARAM-USED), SUBSET is not provably linear (CARD-BOUND), and every operator the compiler can emit exists with the declared arity (OPTABLE). It does not decide value-level correctness of an operator.",
          "trusts go/types+go/cfg, the exception tables (one symbol + reason each) and that the accepted idioms listed in DESIGN.md section 4/C03 are the only sound ones",
